@@ -29,6 +29,8 @@ class Unit:
         self.renames = []
         if not os.environ.get("FSVERIF_NO_RENAME"):
             apply_renames(self)
+        from .canon import canon_unit
+        self.canon = canon_unit(self)
 
     def loc(self, l):
         if not l:
